@@ -253,6 +253,41 @@ def _iface_order(rel: str, cls: str) -> List[str]:
     return out
 
 
+def _nic_accept() -> bool:
+    """`NIC.receive_frame`: the broadcast / unicast acceptance test. Returns True when a unicast frame must also be
+    addressed to an IP address of the host (C08's repair); raises on any other shape."""
+    fn = find_method(class_def(parse(HOST), "NIC"), "receive_frame")
+    tests = [n for n in ast.walk(fn) if isinstance(n, ast.If) and _u(n.test) == "frame.ethernet.dst_mac_addr == 'ff:ff:ff:ff:ff:ff'"]
+    if len(tests) != 1:
+        raise ValueError("NIC.receive_frame: broadcast test not found exactly once")
+    t = tests[0]
+    b = t.body
+    if not (len(b) == 1 and isinstance(b[0], ast.If)
+            and _u(b[0].test) == "frame.ip.dst_ip_address in {self.ip_address, self.ip_network.broadcast_address}"
+            and _u(b[0].body[0]) == "accept_frame = True" and not b[0].orelse):
+        raise ValueError("NIC.receive_frame: unrecognised broadcast acceptance test")
+    e = t.orelse
+    if not (len(e) == 1 and isinstance(e[0], ast.If) and _u(e[0].body[0]) == "accept_frame = True" and not e[0].orelse):
+        raise ValueError("NIC.receive_frame: unrecognised unicast branch")
+    cond = _u(e[0].test)
+    if cond == "frame.ethernet.dst_mac_addr == self.mac_address":
+        return False
+    if cond == ("frame.ethernet.dst_mac_addr == self.mac_address and "
+                "self._connected_node.ip_is_network_interface(frame.ip.dst_ip_address)"):
+        # ip_is_network_interface must compare against every interface's ip_address, enabled or not, by default
+        nf = find_method(class_def(parse(BASE), "Node"), "ip_is_network_interface")
+        args = nf.args
+        if [a.arg for a in args.args] != ["self", "ip_address", "enabled_only"] or _u(args.defaults[0]) != "False":
+            raise ValueError("Node.ip_is_network_interface: unexpected signature")
+        loop = [n for n in _body(nf) if isinstance(n, ast.For)]
+        if len(loop) != 1 or _u(loop[0].iter) != "self.network_interface.values()":
+            raise ValueError("Node.ip_is_network_interface: unexpected loop")
+        if not any(isinstance(n, ast.If) and _u(n.test) == "network_interface.ip_address == ip_address" for n in ast.walk(loop[0])):
+            raise ValueError("Node.ip_is_network_interface: address comparison not found")
+        return True
+    raise ValueError(f"NIC.receive_frame: unrecognised unicast acceptance test `{cond}`")
+
+
 def _send_guard_first() -> bool:
     ok = True
     for rel, cls in ((BASE, "WiredNetworkInterface"), (SWI, "SwitchPort")):
@@ -339,6 +374,8 @@ def arpPort : Nat := {_arp_port()}
 def nicOrder : List String := {_lean_str_list(_iface_order(HOST, "NIC"))}
 def switchPortOrder : List String := {_lean_str_list(_iface_order(SWI, "SwitchPort"))}
 def routerIfOrder : List String := {_lean_str_list(_iface_order(RT, "RouterInterface"))}
+/-- a host NIC accepts a unicast frame only if it is for its MAC and for an IP address of the host -/
+def nicUnicastNeedsOwnIp : Bool := {lb(_nic_accept())}
 /-- `send_frame` of wired interfaces and switch ports starts with `if not self.enabled: return False` -/
 def sendGuardFirst : Bool := {lb(_send_guard_first())}
 /-- does `<Class>.receive_frame` start with `if self.operating_state != ON: return`? -/
